@@ -1,7 +1,7 @@
 From Coq Require Import ZArith List Bool.
 From RV Require Import Base.Wire Base.Text Lang.Escape Lang.Sections.
 From RV Require Lang.StmtAst Lang.Transl Lang.Scope Wire.C01_stmtW.
-From RV Require Lang.Headers Lang.FnSelect Lang.EmitScope.
+From RV Require Lang.Headers Lang.FnSelect Lang.EmitScope Lang.Reserved Lang.ExcDecl.
 Import ListNotations.
 Open Scope Z_scope.
 
@@ -207,8 +207,49 @@ Definition enc_tok (t : EmitScope.tok) : wv :=
 Definition enc_body (params : list EmitScope.cname) (toks utoks : list EmitScope.tok) : wv :=
   WL [WL (map enc_tok toks); wbool (EmitScope.fn_ok params toks); wbool (EmitScope.fn_ok params utoks)].
 
+(* op 11: the IR as _nested_blocks sees it.  [0, body, [[has_class, class, body] ...]] = TryStatement, [1, [block ...]] = other *)
+Fixpoint un_enode (fuel : nat) (v : wv) : option ExcDecl.enode :=
+  match fuel with
+  | O => None
+  | S k =>
+      match v with
+      | WL [WI 0; WL b; WL hs] =>
+          match un_list (un_enode k) (WL b),
+                un_list (fun h => match h with
+                                  | WL [WI has; c; WL hb] =>
+                                      match un_text c, un_list (un_enode k) (WL hb) with
+                                      | Some t, Some l => Some (if has =? 1 then Some t else None, l)
+                                      | _, _ => None
+                                      end
+                                  | _ => None
+                                  end) (WL hs) with
+          | Some b', Some hs' => Some (ExcDecl.XTry b' hs')
+          | _, _ => None
+          end
+      | WL [WI 1; WL bs] =>
+          match un_list (fun b => un_list (un_enode k) b) (WL bs) with
+          | Some l => Some (ExcDecl.XNode l)
+          | None => None
+          end
+      | _ => None
+      end
+  end.
+
 Definition run (v : wv) : wv :=
   match v with
+  | WL [WI 10; ns] =>
+      match un_list un_text ns with
+      | Some l => wok [WL (map (fun n => wbool (Reserved.reserved n)) l); wbool (Reserved.check_all l)]
+      | None => wbad
+      end
+  | WL [WI 11; su; lo; fs] =>
+      match un_list (un_enode 64) su, un_list (un_enode 64) lo, un_list (un_list (un_enode 64)) fs with
+      | Some s, Some l, Some f =>
+          let cs := ExcDecl.program_classes s l f in
+          wok [WL (map wtext cs); WL (map (fun c => wtext (ExcDecl.class_decl c)) cs);
+               WL (map (fun c => wtext (ExcDecl.dots_to_colons c)) cs)]
+      | _, _, _ => wbad
+      end
   | WL [WI 0; s] =>
       match un_text s with Some t => wok [wtext (escape t)] | None => wbad end
   | WL [WI 1; s] =>
